@@ -107,11 +107,17 @@ class Ctx:
 
     # ---------------------------------------------------------------- Coq
     def coq_make(self, targets, clean=False):
-        ensure_coq_makefile()
-        if clean:
-            sh(["make", "clean"], cwd=COQ, timeout=600)
-            ensure_coq_makefile(force=True)
-        rc, out = sh(["make", "-j%d" % NCPU] + targets, cwd=COQ, timeout=3400)
+        """One `make` at a time across all processes (flock): concurrent makes would race on
+        Makefile/.Makefile.d regeneration."""
+        import fcntl
+        os.makedirs(CACHE, exist_ok=True)
+        with open(os.path.join(CACHE, "coq.lock"), "w") as lk:
+            fcntl.flock(lk, fcntl.LOCK_EX)
+            ensure_coq_makefile()
+            if clean:
+                sh(["make", "clean"], cwd=COQ, timeout=600)
+                ensure_coq_makefile(force=True)
+            rc, out = sh(["make", "-j%d" % NCPU] + targets, cwd=COQ, timeout=3400)
         return rc, out
 
     def coq_props(self, props_file=None, extra_targets=()):
